@@ -135,10 +135,12 @@ def extra_models():
     """models used by the GFF3 rules only (models() is shared with other properties)"""
     # two isoforms that differ in their UTRs and share the coding region - the most common kind of alternative transcript
     g4 = dict(
-        kind="gene", gene_id="G4", gene_symbol="g4", gene_type="protein_coding", locus_tag="L4", qualifiers=None,
+        kind="gene", gene_id="G4", gene_symbol="g4", gene_type="protein_coding", locus_tag="L4",
+        # keys that differ only in case (one object, and gene vs transcript): every value reaches the rows
+        qualifiers={"Evidence": ["curated"], "Source_DB": ["refdb"], "source_db": ["otherdb"]},
         transcripts=[
             dict(exons=[(4, 20)], strand="PLUS", cds=[(8, 17)], start_frame=0, transcript_id="T7", transcript_symbol="t7",
-                 transcript_type="protein_coding", protein_id=None, product=None, qualifiers=None),
+                 transcript_type="protein_coding", protein_id=None, product=None, qualifiers={"evidence": ["predicted"]}),
             dict(exons=[(6, 12), (12, 23)], strand="PLUS", cds=[(8, 12), (12, 17)], start_frame=0, transcript_id="T8", transcript_symbol="t8",
                  transcript_type="protein_coding", protein_id=None, product=None, qualifiers=None),
             dict(exons=[(5, 21)], strand="PLUS", cds=[(8, 17)], start_frame=0, transcript_id="T9", transcript_symbol="t9",
@@ -508,6 +510,36 @@ def rk_reserved(ctx):
             r.check(k2 == k and h2 == handle, "C11.RR", w.qual, f"{how} of collections, add_sequences={add_seq}",
                     f"collection_to_gff3 given a {how} of collections (add_sequences={add_seq}) writes {len(h2)} lines ({k2}); given a list it "
                     f"writes {len(handle)}: a one-shot iterable is consumed before the export", w)
+
+
+    # several collections in one file, one of them without any annotation (an un-annotated contig, or an empty query result): every
+    # collection gets its sequence-region line and its FASTA record, in either ordering mode
+    GENOME_B = GENOME[::-1]
+    par_b = chrom_parent(it, GENOME_B, seq_id="chr0", alphabet="NT_EXTENDED")
+    try:
+        empty = mk_collection(it, None, None, sequence_name="chr0", parent_or_seq_chunk_parent=par_b)
+    except Raised as ex:
+        empty = None
+        r.note(f"C11.RR: a collection without members on a sequence is refused by the constructor ({ex.exc_name}); the multi-collection layout case is skipped")
+    if empty is not None:
+        for ordered in (True, False):
+            handle = []
+            k, v = run(it, w, [[ac, empty], handle], {"add_sequences": True, "ordered": ordered}, None)
+            regions = [x for x in handle if x.startswith("##sequence-region")]
+            i = handle.index("##FASTA") if "##FASTA" in handle else len(handle)
+            records = {}
+            cur = None
+            for ln in handle[i + 1:]:
+                if ln.startswith(">"):
+                    cur = ln[1:].split()[0]
+                    records[cur] = ""
+                elif cur is not None:
+                    records[cur] += ln.strip()
+            ok = (k == "ok" and sorted(regions) == sorted([f"##sequence-region chr1 1 {len(GENOME)}", f"##sequence-region chr0 1 {len(GENOME_B)}"])
+                  and records == {"chr1": GENOME, "chr0": GENOME_B})
+            r.check(ok, "C11.RR", w.qual, f"file layout with an un-annotated collection, ordered={ordered}",
+                    f"collection_to_gff3([annotated chr1, un-annotated chr0], add_sequences=True, ordered={ordered}) -> {k}:{v if k != 'ok' else ''}; "
+                    f"sequence-region lines {regions}, FASTA records {sorted(records)}: every collection must have both", w)
 
 
 def r1_escape_tables(ctx):
